@@ -178,7 +178,7 @@ func genInboxF(r *rng, ty string, k int, focus bool) *scenario {
 	sender := pick(r, remoteActors[:3])
 	id := fmt.Sprintf("%s/activities/%s-%d", remote, ty, k)
 	act := jmap{"@context": asCtx, "type": ty, "id": id, "actor": iriOrEmbedded(r, sender)}
-	if r.chance(1, 4) {
+	if r.chance(1, 4) && !(focus && (ty == "Accept" || ty == "Reject")) { // (the Accept cases set their accepting actors themselves)
 		act["actor"] = []interface{}{sender, iriOrEmbedded(r, pick(r, remoteActors[:3]))}
 	}
 	if focus && k%7 == 3 && ty != "Accept" && ty != "Reject" { // two actors that differ only in the query of their ids; the second one is blocked
@@ -321,7 +321,7 @@ func genInboxF(r *rng, ty string, k int, focus bool) *scenario {
 			w.Remote[fid] = remoteDoc{Kind: "doc", Doc: follow}
 			act["object"] = fid
 		}
-		if r.chance(1, 8) {
+		if r.chance(1, 8) && !focus {
 			act["object"] = note(0) // not a Follow at all
 		}
 	case "Add", "Remove":
